@@ -152,8 +152,18 @@ def seeded(g):
     f1 = weird_name(rng) + rng.choice([".f90", ".F90", ".f", ".f08"])
     path = f"{ROOT}/{d1}/{f1}"
     src = gen.small_program(rng, tag, nonascii=True)
-    if f1.endswith(".f"):
-        src = src  # still free-form text; form detection is content based
+    big_line = None
+    if rng.random() < 0.35:
+        # a response well beyond one pipe buffer / write chunk whose byte length and character
+        # length differ a lot: long non-ASCII documentation echoed by hover and completion
+        unit = rng.choice(["αβγδε ", "日本語の説明", "größe µm ", "Жук ", "é→λ "])
+        n = rng.choice([1500, 3000, 4300, 9000, 20000]) // len(unit) + 1
+        doc = (unit * n).strip()
+        sl = src.split("\n")
+        k = next(j for j, ln in enumerate(sl) if ln.strip().startswith("real ::"))
+        sl.insert(k, "  !> " + doc)
+        src = "\n".join(sl)
+        big_line = k + 1
     tree = {path: src}
     style = rng.choice(["min", "lower", "over"])
     u = frames.uri_encode(path, style)
@@ -167,6 +177,11 @@ def seeded(g):
     ops = [gen.initialize(1, by=rng.choice(["rootPath", "rootUri", "both"])), gen.initialized(),
            gen.note("textDocument/didOpen", {"textDocument": {"uri": u, "text": src}})]
     ops.append(gen.req(rid(), "textDocument/documentSymbol", {"textDocument": {"uri": u}}))
+    if big_line is not None:
+        col = lines[big_line].index("::") + 4
+        for meth in ("textDocument/hover", "textDocument/completion"):
+            ops.append(gen.req(rid(), meth, {"textDocument": {"uri": u},
+                                             "position": {"line": big_line, "character": col}}))
     for _ in range(rng.randint(3, 10)):
         li = rng.randrange(len(lines))
         ch = rng.randint(0, len(lines[li]))
